@@ -67,7 +67,7 @@ func c17Base() *config.PikeConfig {
 	}
 }
 
-var c17Hostile = []string{"yes", "no", "null", "~", "1", "1e3", "0x1f", "1:20", " lead", "trail ", "a: b", "- a", "#a", `"q"`, "'s'", "line1\nline2", "héllo✓", "!!str x", "&a", "*a", "|", "{a}", "[a]", "2001-12-14", "true", "0o14", ".inf", "", "\t"}
+var c17Hostile = []string{"yes", "no", "null", "~", "1", "1e3", "0x1f", "1:20", " lead", "trail ", "a: b", "- a", "#a", `"q"`, "'s'", "line1\nline2", "line1\nline2\n", "trail\n\n", "\nlead", "héllo✓", "!!str x", "&a", "*a", "|", "{a}", "[a]", "2001-12-14", "true", "0o14", ".inf", "", "\t"}
 
 func normalize(c *config.PikeConfig) *config.PikeConfig {
 	d := *c
@@ -399,6 +399,15 @@ func init() {
 			for _, hn := range []string{"Assets.Example.com", "UPPER.EXAMPLE", "xn--bcher-kva.example", "a-b.c-d.example"} {
 				p := mk([]string{"a"}, "a", map[string]string{"l1": "a"}, []string{"l1"}, "")
 				p.Locations[0].Hosts = []string{hn}
+				if p.Validate() == nil {
+					menu = append(menu, p)
+				}
+			}
+			// accepted configurations whose rewrite rule is of the documented form `pattern:replacement` but whose pattern is
+			// no regular expression (validation only looks at the form): the location still routes
+			for _, rw := range []string{"/api/(*:/$1", "/api/(.*):/$1", "[:/x"} {
+				p := mk([]string{"a"}, "a", map[string]string{"l1": "a"}, []string{"l1"}, "")
+				p.Locations[0].Rewrites = []string{rw}
 				if p.Validate() == nil {
 					menu = append(menu, p)
 				}
